@@ -25,6 +25,18 @@ for pid in ["C%02d" % i for i in range(1, 19)]:
         shutil.copy('%s/demo%d.rs' % (src, k), d + '/demo.rs')
         detected = sorted(c for c, rc in ph2['checks'].items() if rc == 1)
         first_run_detected = list(detected)
+        first_mode = "all 18 quick checks on /repo (apply, check, undo)"
+        pf = '%s/res%d/first.json' % (src, k)
+        if os.path.exists(pf):
+            # rounds >= 5: the "first as is" run of all 18 checks was made in scratch lanes (tools/seedfirst_par.sh) with the
+            # harness as it stood before the change was known; phase2.json is the confirmation on /repo itself afterwards
+            fj = json.load(open(pf))
+            first_run_detected = sorted(c for c, rc in fj['checks'].items() if rc == 1)
+            first_mode = "all 18 quick checks in scratch lanes (tools/seedfirst_par.sh: scratch worktree of /repo HEAD + copy of the harness), before any strengthening"
+            for c in first_run_detected:
+                if c not in detected:
+                    detected.append(c)
+            detected.sort()
         p2b = '%s/res%db/phase2.json' % (src, k)
         if os.path.exists(p2b):
             for c, rc in json.load(open(p2b))['checks'].items():
@@ -43,11 +55,12 @@ for pid in ["C%02d" % i for i in range(1, 19)]:
                     "scratch worktree of /repo HEAD: git apply patch.diff; cargo test --workspace --no-fail-fast --offline  -> %d passed, %d failed" % (ph1['baseline_passed'], ph1['baseline_failed']),
                     "same worktree: demo.rs as tests/demo.rs; cargo test --offline --features stream,raw_decoder --test demo -> exit %d (fails with the change)" % ph1['demo_exit_with_change'],
                     "git checkout of the sources; same demo -> exit %d (passes without the change)" % ph1['demo_exit_without_change'],
-                    "git -C /repo apply patch.diff; ./check <Cxx> quick for all 18 checks; git -C /repo checkout -- .",
+                    "git -C /repo apply patch.diff; ./check <Cxx> quick for %s; git -C /repo checkout -- ." % ("all 18 checks" if len(ph2['checks']) > 2 else "the check(s) " + ", ".join(sorted(ph2['checks']))),
                 ],
                 "detected_by_quick_checks": detected,
                 "own_property_check_detects": pid in detected,
                 "own_property_check_detected_on_first_run": pid in first_run_detected,
+                "first_run": {"how": first_mode, "detected_by": first_run_detected},
                 "machinery_exits": machinery,
             },
         }
@@ -57,7 +70,10 @@ import glob
 idx = []
 for dd in sorted(glob.glob(out_root + '/C*-*/')):
     m = json.load(open(dd + 'meta.json'))
-    idx.append({"seed": os.path.basename(dd.rstrip('/')), "summary": m["summary"], "detected_by": m["confirmed"]["detected_by_quick_checks"]})
+    e = {"seed": os.path.basename(dd.rstrip('/')), "summary": m["summary"], "detected_by": m["confirmed"]["detected_by_quick_checks"]}
+    if m.get("expect_detected") is False:
+        e["expect_detected"] = False
+    idx.append(e)
 json.dump(idx, open(out_root + '/index.json', 'w'), indent=1)
 for p, k, s, d in rows:
     print("%s-%d  detected by %s" % (p, k, ",".join(d) or "NONE"))
